@@ -1,2 +1,2 @@
-From LV Require Import Ledger.Chart Ledger.SchemaCtrl.
-NAMES unmarshal marshal classify validate_posting valid_chart re_valid_small re_match_small sstep sinit
+From LV Require Import Ledger.Chart Ledger.SchemaCtrl Ledger.HttpViewSchema.
+NAMES unmarshal marshal classify validate_posting valid_chart re_valid_small re_match_small sstep sinit shttp_error
